@@ -931,7 +931,9 @@ def evalRequire : Nat → EnvId → Node → Option String → Bool → Option (
     let symbols := (s.localSymbols menv).filter (fun n => !n.startsWith "_")
     let valueOf := fun (n : String) => (s.lookup menv n).getD .null
     if unq then do
-      modifyS (fun s => symbols.foldl (fun s n => s.put env n (valueOf n)) s)
+      -- module objects the module itself required are not re-exported (as in the qualified form)
+      let exported := symbols.filter (fun n => !isModuleObj s (valueOf n))
+      modifyS (fun s => exported.foldl (fun s n => s.put env n (valueOf n)) s)
       pure .null
     else match syms with
     | some (sy :: sys) => do
